@@ -3,11 +3,12 @@
 # number-like string up to length L (quick 5, thorough 6) against an independent token scanner; thorough also runs tokens
 # around and above SOPLEX_LPF_MAX_LINE_LEN characters.  See driver.cpp.
 # usage: bounded.sh --tier quick|thorough --scratch <dir>      prints ONE JSON line on stdout.
-tier=quick; scratch=/var/tmp
+tier=quick; scratch=/var/tmp; mode="${LPF_READVALUE_MODE:-real}"
 while [ $# -gt 0 ]; do
    case "$1" in
       --tier) tier="$2"; shift 2;;
       --scratch) scratch="$2"; shift 2;;
+      --rational) mode=rat; shift;;
       *) shift;;
    esac
 done
@@ -19,21 +20,24 @@ machinery() { printf '{"status":"machinery","cases":0,"bound":"number-like strin
 mkdir -p "$work/inc/soplex" || machinery "cannot create scratch"
 hpp="$repo/src/soplex/spxlpbase_real.hpp"
 [ -f "$hpp" ] || machinery "spxlpbase_real.hpp not found under $repo"
+if [ "$mode" = rat ]; then
+   grep -q 'static Rational LPFreadValue(char\*& pos, SPxOut\* spxout, const int lineno = -1)' "$repo/src/soplex/spxlpbase_rational.hpp" || machinery "signature of the rational LPFreadValue changed"
+fi
 grep -q 'static R LPFreadValue(char\*& pos, SPxOut\* spxout)' "$hpp" || machinery "signature of LPFreadValue changed"
-grep -q 'value = atof(tmp.data());' "$hpp" || machinery "LPFreadValue no longer converts through atof(tmp.data()): the recording hook of the driver does not apply"
+[ "$mode" = rat ] || grep -q 'value = atof(tmp.data());' "$hpp" || machinery "LPFreadValue no longer converts through atof(tmp.data()): the recording hook of the driver does not apply"
 ver() { sed -n "s/.*set *( *SOPLEX_VERSION_$1 *\([0-9][0-9]*\).*/\1/p" "$repo/CMakeLists.txt" 2>/dev/null | head -1; }
 {
    echo '#ifndef __SPXCONFIG_H__'; echo '#define __SPXCONFIG_H__'; echo '#define SOPLEX_BUILD_TYPE "verif-bounded"'
    for k in MAJOR MINOR PATCH; do v="$(ver $k)"; echo "#define SOPLEX_VERSION_$k ${v:-0}"; done
-   echo '#define SOPLEX_WITH_BOOST'; echo '#define SOPLEX_WITH_GMP'; echo '#define SOPLEX_WITH_ZLIB'; echo '#endif'
+   echo '#define SOPLEX_WITH_BOOST'; echo '#define SOPLEX_WITH_GMP'; echo '#define SOPLEX_WITH_MPFR'; echo '#define SOPLEX_WITH_ZLIB'; echo '#endif'
 } > "$work/inc/soplex/config.h"
 echo '#define SPX_GITHASH "verif-bounded"' > "$work/inc/soplex/git_hash.cpp"
 lib=""
 for n in didxset idxset mpsinput nameset spxdefines spxgithash spxid spxout usertimer wallclocktimer; do lib="$lib $repo/src/soplex/$n.cpp"; done
-if ! timeout 900 g++ -std=c++14 -O1 -g -DNDEBUG -fsanitize=address -I"$work/inc" -I"$repo/src" "$here/driver.cpp" $lib -o "$work/driver" -lgmp -lz > "$work/cc.log" 2>&1; then
+if ! timeout 900 g++ -std=c++14 -O1 -g -DNDEBUG -fsanitize=address -I"$work/inc" -I"$repo/src" "$here/driver.cpp" $lib -o "$work/driver" -lgmp -lmpfr -lz > "$work/cc.log" 2>&1; then
    machinery "driver does not compile against the current headers: $(tail -3 "$work/cc.log" | tr '\n"\\' "  /" | cut -c1-300)"
 fi
-out="$(ASAN_OPTIONS=detect_leaks=0 timeout 1500 "$work/driver" "$L" "$long" 2> "$work/run.log" | tail -1)"
+out="$(ASAN_OPTIONS=detect_leaks=0 timeout 1500 "$work/driver" "$L" "$long" "$mode" 2> "$work/run.log" | tail -1)"
 case "$out" in
    '{"status":'*) printf '%s\n' "$out";;
    *) machinery "driver gave no result (rc/timeout/sanitizer abort in the enumeration): $(grep -m1 -E 'ERROR: AddressSanitizer|runtime error' "$work/run.log" | tr '\n"\\' "  /" | cut -c1-200) $(tail -1 "$work/run.log" | tr '\n"\\' "  /" | cut -c1-100)";;
